@@ -237,3 +237,84 @@ func setNodeReady(n *corev1.Node, ready bool, now metav1.Time) {
 	}
 	n.Spec.Taints = keep
 }
+
+// WatchPods makes the kubelet actor finish terminating pods at their deletionTimestamp (unless
+// stuck) and lets the attach-detach controller remove VolumeAttachments some time after the pod
+// is gone.
+func (k *Kubelet) WatchPods() {
+	st := k.s.store
+	stuck := map[types.UID]bool{}
+	decided := map[types.UID]bool{}
+	var queue []func()
+	st.OnWrite = append(st.OnWrite, func(ev WatchEvent, old client.Object, by *Task) {
+		if ev.GVK != gvkPod {
+			return
+		}
+		pod := ev.Obj.(*corev1.Pod)
+		if ev.Type == EvDeleted {
+			// detach volumes later
+			for _, v := range pod.Spec.Volumes {
+				if v.PersistentVolumeClaim == nil {
+					continue
+				}
+				pvcName := v.PersistentVolumeClaim.ClaimName
+				queue = append(queue, func() {
+					pvc := st.Get(gvkPVC, types.NamespacedName{Namespace: pod.Namespace, Name: pvcName})
+					if pvc == nil {
+						return
+					}
+					va := types.NamespacedName{Name: "va-" + pvc.(*corev1.PersistentVolumeClaim).Spec.VolumeName}
+					if k.s.FaultsOn && k.s.Ch.Chance("ad.stuck", 0.1) {
+						k.s.Stat("fault.volume.stuckattached")
+						return
+					}
+					k.s.AddTimer(actorKubelet, k.delay("ad.delay", 3*time.Minute), "detach "+va.Name, false, func() { st.Remove(gvkVA, va, nil) })
+				})
+			}
+			return
+		}
+		if pod.DeletionTimestamp == nil || pod.Spec.NodeName == "" {
+			return
+		}
+		if old != nil {
+			if op := old.(*corev1.Pod); op.DeletionTimestamp != nil && op.DeletionTimestamp.Equal(pod.DeletionTimestamp) {
+				return
+			}
+		}
+		uid, key, at := pod.UID, keyOf(pod), pod.DeletionTimestamp.Time
+		queue = append(queue, func() {
+			if !decided[uid] {
+				decided[uid] = true
+				if k.s.FaultsOn && k.s.Ch.Chance("kubelet.stuckpod", k.PStuckPod) {
+					stuck[uid] = true
+					k.s.Stat("fault.pod.stuckterminating")
+				}
+			}
+			if stuck[uid] {
+				return
+			}
+			d := at.Sub(k.s.Now())
+			if d < 0 {
+				d = 0
+			}
+			k.s.AddTimer(actorKubelet, d, "kubelet kill "+key.Name, false, func() {
+				cur := st.Get(gvkPod, key)
+				if cur == nil || cur.GetUID() != uid {
+					return
+				}
+				if dt := cur.GetDeletionTimestamp(); dt != nil && dt.Time.After(k.s.Now()) {
+					return // a later (shorter) deadline has its own timer
+				}
+				st.Remove(gvkPod, key, nil)
+				k.s.Stat("env.pod.killed")
+			})
+		})
+	})
+	k.s.AddObserver(func() {
+		q := queue
+		queue = nil
+		for _, f := range q {
+			f()
+		}
+	})
+}
